@@ -12,8 +12,6 @@ import (
 
 	specqbft "github.com/bloxapp/ssv-spec/qbft"
 	spectypes "github.com/bloxapp/ssv-spec/types"
-
-	ssvtypes "github.com/bloxapp/ssv/protocol/v2/types"
 )
 
 // Intern maps real byte strings to the small ids of one case (ids are assigned in order of first appearance,
@@ -91,7 +89,11 @@ func (in *Intern) MidOfBytes(ssz []byte) int {
 	return id
 }
 
-// ---------------------------------------------------------------- sigOk: the REAL verification, cached per (message, committee)
+// ---------------------------------------------------------------- sigOk: the REFERENCE verification (ssv-spec
+// types.Signature.VerifyByOperators: plain BLS FastAggregateVerify over the signing root, no caches), cached here per
+// (message content incl. signature, committee). It is deliberately NOT the node's protocol/v2/types.VerifyByOperators: the
+// node's verifier is part of the code under test (it is what the instances and the controller call), so a node that accepts a
+// message this function refuses shows up as model≠code and in the C02 certificate oracle.
 
 var sigCache sync.Map // [33]byte -> bool
 
@@ -103,7 +105,7 @@ func sigOk(env *Env, m *specqbft.SignedMessage) bool {
 	if v, ok := sigCache.Load(ck); ok {
 		return v.(bool)
 	}
-	ok := ssvtypes.VerifyByOperators(m.Signature, m, env.domain, spectypes.QBFTSignatureType, env.committee) == nil
+	ok := m.Signature.VerifyByOperators(m, env.domain, spectypes.QBFTSignatureType, env.committee) == nil
 	sigCache.Store(ck, ok)
 	return ok
 }
@@ -176,10 +178,25 @@ func (c *Case) absMsg(m *specqbft.SignedMessage) string {
 	if err1 != nil || err2 != nil { // malformed: the lists are never read
 		rcj, pj = nil, nil
 	}
-	return fmt.Sprintf("t=%d h=%d r=%d id=%d root=%d dr=%d s=%s sig=%s mal=%s mid=%d full=%d rcj=%s pj=%s",
+	// `sigof=<mid>`: the (invalid) signature is byte-for-byte that of the earlier VALID message <mid> of this case with the
+	// same signer list (ignored by the model: only `sig` matters there; the replay concretizer re-uses those bytes)
+	sigof := ""
+	key := string(m.Signature) + "|" + joinU(m.Signers, "+")
+	mid := c.in.Mid(m)
+	if sigOk(c.env, m) {
+		if c.sigSeen == nil {
+			c.sigSeen = map[string]int{}
+		}
+		if _, ok := c.sigSeen[key]; !ok {
+			c.sigSeen[key] = mid
+		}
+	} else if m0, ok := c.sigSeen[key]; ok {
+		sigof = fmt.Sprintf(" sigof=%d", m0)
+	}
+	return fmt.Sprintf("t=%d h=%d r=%d id=%d root=%d dr=%d s=%s sig=%s mal=%s mid=%d full=%d rcj=%s pj=%s%s",
 		uint64(m.Message.MsgType), uint64(m.Message.Height), uint64(m.Message.Round), c.in.Ident(m.Message.Identifier),
 		c.in.Root(m.Message.Root), uint64(m.Message.DataRound), joinU(m.Signers, "+"), b01(sigOk(c.env, m)),
-		b01(malformed(&m.Message)), c.in.Mid(m), c.in.Val(m.FullData), c.absL1List(rcj), c.absBList(pj))
+		b01(malformed(&m.Message)), mid, c.in.Val(m.FullData), c.absL1List(rcj), c.absBList(pj), sigof)
 }
 
 // ---------------------------------------------------------------- printing of what the real code produced
